@@ -34,6 +34,7 @@ ASSUMPTIONS = [
 ]
 CHECK = "posterior"
 A_COEF = 3.0
+A_CAP = 0.25  # the finite-particle allowance may not exceed a quarter of a posterior sd / 25% of a variance, whatever the spread
 
 
 def cells_for(tier, seed):
@@ -90,7 +91,7 @@ class Runs:
             flagged, vals = abs(m) > allowed, dv
         else:
             vals = [r["errs"][key] for r in reps if "errs" in r]
-            m, s, allowed, flagged = ens.bias_test(vals, case["alpha"], A_COEF)
+            m, s, allowed, flagged = ens.bias_test(vals, case["alpha"], A_COEF, A_CAP)
         if flagged:
             raise Violation(describe(cell, key, m, s, allowed, len(vals), reps), sig=signature(cell, key, m, reps))
         return {}
@@ -119,7 +120,9 @@ def signature(cell, key, m, reps):
     return {"kind": "posterior-biased", "kernel": cell["kernel"], "clustering": cell["clustering"], "family": cell["family"],
             "estimator": est, "estimand": "".join(c for c in what if not c.isdigit()).split("@")[0], "sign": "+" if m > 0 else "-",
             "folded": cell["family"] in ("periodic", "reflective"), "labels": "position" if cell["clustering"] else "none",
-            "crossing": ">1e-3" if cross > 1e-3 else "<=1e-3"}
+            "crossing": ">1e-3" if cross > 1e-3 else "<=1e-3",
+            # the recorded findings K1-K3 are biases of a few per cent / a tenth of a posterior sd; anything gross is something else
+            "magnitude": "moderate" if abs(m) <= 0.25 else "gross"}
 
 
 def describe(cell, key, m, s, allowed, R, reps):
@@ -158,7 +161,7 @@ def finish(rec, tier, seed, jobs):
         for key in ok[0]["errs"]:
             if key == "logz":
                 continue  # C02's subject
-            m, s, allowed, fl = ens.bias_test([r["errs"][key] for r in ok], 1e-6, A_COEF)
+            m, s, allowed, fl = ens.bias_test([r["errs"][key] for r in ok], 1e-6, A_COEF, A_CAP)
             table.append({"cell": ci, "family": cell["family"], "kernel": cell["kernel"], "clustering": cell["clustering"], "N": cell["N"],
                           "estimand": key, "mean_err": round(m, 5), "sd": round(s, 5), "allowed": round(allowed, 5), "R": len(ok)})
             if fl:
@@ -194,7 +197,7 @@ def finish(rec, tier, seed, jobs):
                 allowed = float(ens.stats.t.isf(1e-4 / 2, len(dv) - 1)) * s / math.sqrt(len(dv)) + 6.0 * su * su
                 fl = abs(m) > allowed
             else:
-                m, s, allowed, fl = ens.bias_test([r["errs"][key] for r in ok2], 1e-4, A_COEF)
+                m, s, allowed, fl = ens.bias_test([r["errs"][key] for r in ok2], 1e-4, A_COEF, A_CAP)
             if not fl or (m > 0) != (m1 > 0):
                 rec.classes[f"{CHECK}:stage1-flag-not-confirmed"] += 1
                 continue
